@@ -31,6 +31,8 @@ if TYPE_CHECKING:
 def _is_identity(action) -> bool:
     """Check if the given action is equivalent to an identity."""
     gate = action.gate if isinstance(action, ops.Operation) else action
+    if isinstance(gate, ops.XPowGate) and gate.dimension != 2:
+        return False  # the qudit shift gate has another period
     if isinstance(gate, (ops.XPowGate, ops.CXPowGate, ops.CCXPowGate, ops.SwapPowGate)):
         return gate.exponent % 2 == 0
     return False
